@@ -6,6 +6,7 @@
 #include <cnl/elastic_integer.h>
 #include <cnl/elastic_scaled_integer.h>
 #include <cnl/fraction.h>
+#include <cnl/overflow_integer.h>
 #include <cnl/rounding_integer.h>
 #include <cnl/scaled_integer.h>
 
@@ -128,7 +129,10 @@ void arith(char const* desc)
     auto bs = RT<RR>::values(rng, nb, nr);
     if (Oper == NEG) { bs.assign(1, X()); nb = 1; }
     constexpr int emin = LE_ < RE ? LE_ : RE;
-    constexpr bool bothb = RT<LR>::builtin && RT<RR>::builtin;
+    // fixed-width representations: built-in integers, or overflow_integer wrappers directly over them (same arithmetic inside the domain)
+    using LB = base_of_t<LR>;
+    using RB = base_of_t<RR>;
+    constexpr bool bothb = is_builtin<LB> && is_builtin<RB> && !RT<LR>::elastic && !RT<RR>::elastic;
     t.exhaustive = na == as.size() && nb == bs.size();
     X const fl = xipow(Radix, LE_ - emin), fr = xipow(Radix, RE - emin);
     for (size_t i = 0; i < as.size() && !t.closed; ++i)
@@ -143,8 +147,8 @@ void arith(char const* desc)
             bool bwant = false;
             if constexpr (Oper == DIV || Oper == MOD || Oper == QUOT) if (rb.zero()) ind = false;
             if constexpr (bothb) {
-                using PL = promoted_t<LR>;
-                using PR = promoted_t<RR>;
+                using PL = promoted_t<LB>;
+                using PR = promoted_t<RB>;
                 if constexpr (Oper == ADD || Oper == SUB || (Oper >= LT && Oper <= NE)) {
                     using C = decltype(PL{} + PR{});
                     if (!fits<PL>(ax) || !fits<PR>(ay)) ind = false;
@@ -247,10 +251,10 @@ void arith(char const* desc)
                 // known: for an *unsigned* built-in rep an alignment shift >= the promoted width is not rejected at compile
                 // time (it is for signed reps) and evaluates 1u << shift; only the operand value 0 is in the domain
                 if constexpr (bothb && Radix == 2 && (Oper == ADD || Oper == SUB || (Oper >= LT && Oper <= NE))) {
-                    using PL = promoted_t<LR>;
-                    using PR = promoted_t<RR>;
-                    constexpr bool lbad = !is_sgn<LR> && (LE_ - emin) >= width_of<PL>;
-                    constexpr bool rbad = !is_sgn<RR> && (RE - emin) >= width_of<PR>;
+                    using PL = promoted_t<LB>;
+                    using PR = promoted_t<RB>;
+                    constexpr bool lbad = !is_sgn<LB> && (LE_ - emin) >= width_of<PL>;
+                    constexpr bool rbad = !is_sgn<RB> && (RE - emin) >= width_of<PR>;
                     if ((lbad || rbad) && o.kind == UB_TRAP) cls = "unsigned_alignment_shift_ge_width";
                 }
                 t.violation(cls, o, in(), ex(), ob(), nt);
